@@ -277,7 +277,9 @@ def run_case(case):
         if fin:
             singles = sum(float(pid.check_prior({names[i]: vals[i]})) for i in range(k))
             C["sum_rule_checked"] += 1
-            if not abs(singles - float(got)) <= 1e-9 * (1 + abs(singles)):
+            if math.isfinite(singles) != math.isfinite(float(got)) and exp > -650:
+                viol.append({"key": "C16/vector-sum", "msg": "check_prior(vector)=%r but sum of singles=%r" % (got, singles)})
+            if math.isfinite(singles) and math.isfinite(float(got)) and not abs(singles - float(got)) <= 1e-9 * (1 + abs(singles)):
                 viol.append({"key": "C16/vector-sum", "msg": "check_prior(vector)=%r but sum of singles=%r" % (got, singles)})
         nontrivial = len(set(p[0] for p in prs)) >= 2
         if case["cost"]:
